@@ -3,3 +3,8 @@
 #include "xcm_tp_utls.c"
 #include "env/base.h"
 #include "contracts/utls.h"
+/* every job of the unit runs cbmc with `--max-field-sensitivity-array-size 700` (a performance knob, no change of meaning): a UTLS
+ * socket is a 664-byte object (struct utls_socket holds char laddr[579]) made by is_fresh as a byte array; above the default limit
+ * of 64 every read of its two pointer fields went through the array theory (utls_finish: 2.5M variables, 40 s; with the knob
+ * 0.1M, < 1 s).  Not 1024 or more: --object-bits 10 (needed by connect/server/accept) gives DFCC a 1024-entry table of its own
+ * that must stay an array (symex 45 s otherwise). */
